@@ -147,6 +147,17 @@ def record(w, obj, with_uid=True):
         )
     attrs = public_attrs(obj)
     d["attrs"] = {name: enc(w, attrs[name]) for name in sorted(attrs)}
+    slots = {}
+    for klass in t.__mro__:
+        for name in getattr(klass, "__slots__", ()):
+            if name in ("__dict__", "__weakref__") or name.startswith("_"):
+                continue
+            try:
+                slots[name] = enc(w, getattr(obj, name))
+            except AttributeError:
+                slots[name] = "<unset>"
+    if slots:
+        d["slots"] = slots
     return d
 
 
@@ -456,6 +467,7 @@ class C10(engine.Property):
         "fresh-interpreter-flag-on-at-load",
         "continuation-mutation-on-copy",
         "bytes-attribute",
+        "slotted-attributes-pickled",
     ]
 
     # -- configuration --------------------------------------------------------------------
@@ -470,13 +482,16 @@ class C10(engine.Property):
             rng, kinds=kinds, always=("mk_edge", "uni_add"), multi_p=0.15, lo=6, hi=50, mean=18
         )
         cfg["deep"] = deep
+        if rng.random() < 0.2:
+            # attributes kept in __slots__ (Python itself pickles those from protocol 2 on)
+            cfg["vertex_classes"] = ["Vertex", "SlottedVertex"]
         cfg["nu"] = rng.randint(0, 3)
         cfg["grow"] = rng.randint(3, 25)
         cfg["cont"] = rng.randint(3, 25)
         cfg["steps"] = cfg["nv"] + cfg["nu"] + cfg["grow"] + cfg["cont"] + 12
         cfg["nested_universes"] = rng.random() < 0.5
         cfg["universes_as_ends"] = rng.random() < 0.3
-        cfg["universe_classes"] = rng.choice([["Universe"], ["Universe", "SubUniverse"]])
+        cfg["universe_classes"] = rng.choice([["Universe"], ["Universe", "SubUniverse"], ["Universe", "FalsyUniverse"]])
         cfg["p_attr"] = rng.choice([0.05, 0.15, 0.3])
         cfg["p_laws"] = rng.choice([0.0, 0.05, 0.1])
         cfg["p_read1"] = rng.choice([0.2, 0.4])
@@ -487,7 +502,7 @@ class C10(engine.Property):
         cfg["cache1"] = rng.random() < 0.7
         cfg["cache3"] = rng.choice(["off", "on", "toggling"])
         cfg["pickle"] = {
-            "proto": rng.randint(0, 5),
+            "proto": rng.randint(2 if "SlottedVertex" in cfg["vertex_classes"] else 0, 5),
             "api": rng.choice(["dumps", "dumps", "dump"]),
             "loader": rng.choice(["pickle", "dill"]),
             "mode": rng.choice(["inproc"] * 12 + ["zygote"] * 6 + ["exec"]),
@@ -786,6 +801,8 @@ class C10(engine.Property):
             if d["k"] == "e" and None in d["ends"]:
                 s["probe:half-assigned-edge-pickled"] += 1
                 break
+        if any("slots" in d for d in canon0.values()):
+            s["probe:slotted-attributes-pickled"] += 1
         seams.set_flag(op["flag_dump"])
         try:
             if deep and "headroom" in op:
